@@ -193,6 +193,10 @@ def handle (line : String) : String :=
     | some bs => dump bs
     | none => "bad-op hex"
   | "names" :: ws => namesOp ws
+  | ["bt", n] =>
+    match n.toNat? with
+    | some i => s!"{toHex (encBlockTypeIdx i)} {toHex (encU32 i)}"
+    | none => "bad-op"
   | "label" :: l :: stk =>
     -- `stk` innermost first
     match parseHex l, mapOptS rdOpt stk with
